@@ -61,7 +61,7 @@ Proof.
     rewrite iter_tick_add. destruct (iter_tick (2 ^ d) s); auto.
 Qed.
 
-Lemma iter_tick_finished n s r : iter_tick n s = Finished r -> forall m, n <= m -> iter_tick m s = Finished r.
+Lemma iter_tick_finished n s r z : iter_tick n s = Finished r z -> forall m, n <= m -> iter_tick m s = Finished r z.
 Proof.
   intros H m Hm. replace m with (n + (m - n)) by lia. rewrite iter_tick_add, H. reflexivity.
 Qed.
@@ -77,7 +77,7 @@ Qed.
 Lemma pow2_ge n : n <= 2 ^ n.
 Proof. induction n; [cbn; lia|]. rewrite Nat.pow_succ_r'. pose proof (Nat.pow_nonzero 2 n ltac:(lia)). lia. Qed.
 
-Lemma finish_from n s r : iter_tick n s = Finished r -> forall d, n <= d -> run_depth d s = Finished r.
+Lemma finish_from n s r z : iter_tick n s = Finished r z -> forall d, n <= d -> run_depth d s = Finished r z.
 Proof.
   intros H d Hd. rewrite run_depth_iter. eapply iter_tick_finished; [exact H|].
   pose proof (pow2_ge d). lia.
@@ -108,14 +108,14 @@ Proof.
   destruct (eval fe cfg env [] e rs0) as [v r'|er l r'].
   - destruct (star_iter _ _ _ _ _ _ H) as [n Hn].
     exists (S n). intros d Hd.
-    rewrite (finish_from fe cfg env C (n + 1) _ (Done v r')); auto; [|lia].
+    erewrite (finish_from fe cfg env C (n + 1) _ (Done v r')); [reflexivity| |lia].
     rewrite iter_tick_add, Hn. cbn [iter_tick]. unfold VM.tick. cbn [pc stk rs].
     replace (Nat.ltb (0 + csize (compile (c_mapenv cfg) e)) (csize C)) with false; [reflexivity|].
     symmetry. apply Nat.ltb_ge. subst C. lia.
   - destruct H as (s' & Hs & Hcr).
     destruct (star_iter _ _ _ _ _ _ Hs) as [n Hn].
     exists (S n). intros d Hd.
-    rewrite (finish_from fe cfg env C (n + 1) _ (Stop er l r')); auto; [|lia].
+    erewrite (finish_from fe cfg env C (n + 1) _ (Stop er l r')); [reflexivity| |lia].
     rewrite iter_tick_add, Hn. cbn [iter_tick]. unfold VM.tick.
     destruct (step_crash_lt _ _ _ _ _ _ _ _ Hcr) as [[E1 E2]|Hlt].
     + subst. cbn in Hloc. contradiction.
